@@ -10,6 +10,7 @@ EXTENDS SessionMon
 
 CONSTANTS MaxCalls, MaxConn, MaxFly, MaxKeys,
           Life,          \* BOOLEAN: max_connection_lifetime configured
+          Halves,        \* BOOLEAN: the clock may also advance by half the key lifetime (6 h): two such steps since the handshake expire the key
           HSClasses,     \* reply classes the adversary may use for handshake requests
           DataClasses    \* ... and for data requests
 
@@ -33,7 +34,7 @@ NoProto == [c |-> 0]
 HasProto == p.c # 0
 Alive == HasProto /\ ~p.dead /\ ~(Life /\ cexp)
 Authed == HasProto /\ p.v = 3 /\ p.key # 0 /\ ~p.kexp
-NewProto(c) == [c |-> c, v |-> pver, dead |-> FALSE, pid |-> 0, key |-> 0, kexp |-> FALSE, q |-> <<>>, got |-> 0]   \* got: responses read before the transmission of the running send
+NewProto(c) == [c |-> c, v |-> pver, dead |-> FALSE, pid |-> 0, key |-> 0, kexp |-> FALSE, khalf |-> FALSE, q |-> <<>>, got |-> 0]   \* got: responses read before the transmission of the running send
 
 Init ==
   /\ creds = "none" /\ pver = 2 /\ p = NoProto /\ cexp = FALSE
@@ -178,7 +179,7 @@ WakeRead(pre, pp, nf) ==
 WakeAuth(pre, pp, nf) ==
   LET x == Head(pp.q) IN
   IF x.m = "HSR" /\ x.gen /\ use = "good"
-  THEN /\ p' = [pp EXCEPT !.key = x.k, !.kexp = FALSE, !.q = Tail(pp.q)]
+  THEN /\ p' = [pp EXCEPT !.key = x.k, !.kexp = FALSE, !.khalf = FALSE, !.q = Tail(pp.q)]
        /\ creds' = use /\ pc' = "AuthSleep" /\ evs' = pre /\ fly' = nf
        /\ UNCHANGED <<op, use, left, dkey, nkeys>>
   ELSE FinishF(pre, op, "auth", 0, [pp EXCEPT !.q = Tail(pp.q)], creds, nf)                      \* AuthFailureKeepsConnection
@@ -209,6 +210,13 @@ PeerClose ==
 JumpAuth ==
   /\ pc = "Idle" /\ HasProto /\ p.v = 3 /\ p.key # 0 /\ ~p.kexp
   /\ p' = [p EXCEPT !.kexp = TRUE] /\ evs' = <<[e |-> "jumpauth"]>>
+  /\ UNCHANGED fly /\ Quiet
+
+(* half the key lifetime passes: the lifetime is measured from the handshake, not from the last traffic *)
+JumpHalf ==
+  /\ Halves /\ pc = "Idle" /\ HasProto /\ p.v = 3 /\ p.key # 0 /\ ~p.kexp
+  /\ p' = IF p.khalf THEN [p EXCEPT !.kexp = TRUE] ELSE [p EXCEPT !.khalf = TRUE]
+  /\ evs' = <<[e |-> "jumphalf"]>>
   /\ UNCHANGED fly /\ Quiet
 
 JumpLife ==
@@ -253,7 +261,7 @@ Step ==
   \/ ConnOK \/ ConnFail("refuse") \/ ConnFail("hang")
   \/ \E i \in 1..MaxFly : Deliver(i)
   \/ \E i \in 1..MaxFly : Lose(i)
-  \/ PeerClose \/ JumpAuth \/ JumpLife
+  \/ PeerClose \/ JumpAuth \/ JumpHalf \/ JumpLife
   \/ TimerRead \/ CancelRead \/ TimerAuth \/ CancelOther \/ TimerSleep
 
 Next == Step /\ m' = MonSteps(m, evs')
